@@ -33,6 +33,7 @@ impl PrintState {
         self.printer_type = PrinterType::Print;
         self.file_handle = 0.into();
         self.format_string = None;
+        self.should_skip_new_line = false;
         self.format_string_index = 0;
     }
 
